@@ -36,7 +36,7 @@ func main() {
 			c18.Ring{},
 			harness.External{Property: "C18", Ver: "c18-plat-v3", M: plat.C18Meta(), Quick: 300, Thor: 15000, Bin: "plat.test", TestName: "TestJob", Classify: plat.ClassifyExit},
 		}, Weights: []int{4, 1}, Quick: 1800, Thor: 120000},
-		"C19": harness.Multi{Property: "C19", Parts: []harness.Harness{c19.Ring{}, c19.Handshake{}}, Weights: []int{2, 1}, Quick: 18000, Thor: 500000},
+		"C19": harness.Multi{Property: "C19", Parts: []harness.Harness{c19.Ring{}, c19.Handshake{}, c19.CPHandshake{}, c19.CPScript{}}, Weights: []int{4, 2, 1, 1}, Quick: 24000, Thor: 660000},
 		"C20": c20.H{},
 	}
 	harness.Main(reg)
